@@ -538,7 +538,7 @@ func (x *gen) directedFigure8Snap() {
 
 // net0 drops every message in flight (stale traffic of the cut-off node)
 func (x *gen) net0() {
-	for len(x.c.net) > 0 {
+	for len(x.c.net) > 0 && !x.c.stopped {
 		x.c.exec("drop 0")
 	}
 }
